@@ -94,8 +94,10 @@ fn sentinel(t: &mut Tape, st: &mut St, ty: Ty, wrong_type: bool) -> E {
     if want_str {
         E::Str(format!("s{}é", k))
     } else {
-        match t.below(5) {
+        match t.below(6) {
             0 => lit(k),
+            // far below what a Single can tell from 0: a Double holds it, a Single takes 0
+            5 => E::Lit(format!("{}D-{}", k % 9 + 1, 46 + (k * 37) % 250)),
             // a lone constant of each float type that the other types cannot hold exactly
             1 => E::Lit(format!("{}.123456789012#", k)),
             2 => E::Lit(format!("{}.1", k % 1000)),
@@ -109,7 +111,38 @@ fn remember(st: &mut St, lv: &Lval) {
 }
 
 fn op(t: &mut Tape, st: &mut St) -> Vec<Stmt> {
-    match t.weighted(&[8, 6, 2, 1, 2, 2, 1]) {
+    match t.weighted(&[8, 6, 2, 1, 2, 2, 1, 1]) {
+        7 => {
+            // a FOR loop leaves its counter behind as an ordinary variable of its own type, whatever
+            // the types of the bounds and the step were
+            let n = name(t);
+            let ty = ty_of(&n, &st.deftypes);
+            st.counter += 1;
+            let k = (st.counter % 100) as i64;
+            if ty == Ty::Str {
+                let lv = Lval::Var(n);
+                remember(st, &lv);
+                return vec![Stmt::Print(vec![PItem::Expr(lv.as_expr())])];
+            }
+            let step = match ty {
+                Ty::Str => "1",
+                Ty::Int => *t.pick(&["1", "1!", "1#", "2#", "2%"]),
+                Ty::Sng => *t.pick(&["1", ".5#", ".25#", "1#", ".5", "2%"]),
+                Ty::Dbl => *t.pick(&["1", ".5#", ".5", ".25!", "2%"]),
+            };
+            let to = match ty {
+                Ty::Dbl | Ty::Sng => E::Lit(format!("{}#", k + 2)),
+                _ => lit(k + 2),
+            };
+            let lv = Lval::Var(n.clone());
+            remember(st, &lv);
+            let third = E::Bin(Bin::Div, Box::new(E::Var(n.clone())), Box::new(lit(3)));
+            vec![
+                Stmt::For { v: n, from: lit(k), to, step: Some(E::Lit(step.to_string())) },
+                Stmt::Next(vec![]),
+                Stmt::Print(vec![PItem::Expr(E::Str("<".into())), PItem::Semi, PItem::Expr(third), PItem::Semi, PItem::Expr(E::Str(">".into()))]),
+            ]
+        }
         0 => {
             let lv = target(t, st);
             let ty = ty_of(lv.name(), &st.deftypes);
@@ -212,6 +245,9 @@ fn check_store(t: &mut Tape, ctx: &Ctx) -> Outcome {
         let want = std::mem::take(&mut m.out);
         if h == Halt::Budget || m.undefined.is_some() {
             return Outcome::fail("harness", format!("model cannot run {:?}: {:?}", text, m.undefined), script);
+        }
+        if m.flags.fuzzy_eq {
+            return Outcome::discard("a loop whose end test the manual leaves open");
         }
         term.line(&text, &mut o);
         let got = term.take();
